@@ -1,9 +1,15 @@
-import sys,json
+import sys,json,collections
+c=collections.Counter(); first={}
 for l in sys.stdin:
-    if not l.startswith('{'): 
-        print(l.rstrip()[:300]); continue
+    if not l.startswith('{'):
+        print(l.rstrip()[:200]); continue
     j=json.loads(l)
     if j['t']=='s': continue
     if j['t']=='summary':
         print({k:j.get(k) for k in ['evaluations','probes','faults','steps','budget','violations','wall_s']}); print('nontrivial',len(j['nontrivial']))
-    else: print(json.dumps(j)[:int(sys.argv[1]) if len(sys.argv)>1 else 700])
+    elif j['t']=='violation':
+        k=(j['class'],j['sig']); c[k]+=1; first.setdefault(k,j)
+    else: print(json.dumps(j)[:400])
+n=int(sys.argv[1]) if len(sys.argv)>1 else 300
+for k,v in c.most_common():
+    print(v,k, '| run',first[k]['i'],'|',first[k]['detail'][:n].replace('\n',' / '))
